@@ -745,6 +745,20 @@ func (l *lexer) lexHeredoc() action {
 // It returns false when lexing cannot continue.
 func (l *lexer) scanHeredoc() bool {
 	find := func(r *ast.Redir, delim string) bool {
+		if delim == "" {
+			// an empty line ends the here-document: no part stands for it
+			eol := len(l.word) == 0
+			if !eol {
+				w, ok := l.word[len(l.word)-1].(*ast.Lit)
+				eol = ok && strings.HasSuffix(w.Value, "\n")
+			}
+			if eol {
+				r.Heredoc = concat(l.word)
+				r.Delim = ast.Word{&ast.Lit{ValuePos: l.pos}}
+				l.word = nil
+				return true
+			}
+		}
 		for i := len(l.word) - 1; i >= 0; i-- {
 			// (the positions cannot tell where a line starts when the
 			// here-document comes out of the value of an alias)
